@@ -13,24 +13,45 @@ def _sumsq(c):
     return O.ref_sumsq(c)
 
 
+DATA = {
+    # concrete data (the real eigen-solver answers; tol stays symbolic): norm < 1, = 1 and > 1, asymmetric
+    "small": lambda shape: (((np.arange(int(np.prod(shape))) * 7 + 3) % 11 - 4.0) / 40.0).reshape(shape, order="F"),
+    "unit": lambda shape: _unit(shape),
+    "big": lambda shape: ((np.arange(int(np.prod(shape))) * 5 + 1) % 7 + 1.0).reshape(shape, order="F"),
+}
+
+
+def _unit(shape):
+    """norm exactly 1, distinct singular values in every unfolding"""
+    a = np.zeros(shape)
+    a[(0,) * len(shape)] = 0.6
+    a[(1,) * len(shape)] = 0.8
+    return a
+
+
 def _hosvd_params():
     out = []
     for shape, tier in [((2, 2), "quick"), ((2, 3), "quick"), ((2, 2, 2), "thorough")]:
         N = len(shape)
         for seq in (True, False):
-            for dimorder in ([None] + [list(p) for p in itertools.permutations(range(N)) if list(p) != list(range(N))][:2]):
-                out.append(dict(shape=shape, sequential=seq, dimorder=dimorder, ranks=None, _tier=tier))
+            datas = ["small", "big"] + ([] if seq else ["sym"]) + (["unit"] if N == 2 else [])
+            for data in datas:
+                for dimorder in ([None] + [list(p) for p in itertools.permutations(range(N)) if list(p) != list(range(N))][:1]):
+                    out.append(dict(shape=shape, sequential=seq, dimorder=dimorder, ranks=None, data=data, _tier=tier))
             for ranks in ([[1] * N, list(shape), [min(2, s) for s in shape][::-1] if N == 2 and shape[0] != shape[1] else [1] + [min(2, s) for s in shape[1:]]]):
-                out.append(dict(shape=shape, sequential=seq, dimorder=None, ranks=ranks, _tier=tier))
+                out.append(dict(shape=shape, sequential=seq, dimorder=None, ranks=ranks, data=("sym" if not seq else "big"), _tier=tier))
     return out
 
 
 @ob("C10", params=_hosvd_params(), max_paths=20000, validate=False, env_stub=True,
-    bounds="data symbolic (non-zero), tol symbolic in (0,1), eigen-solver = contract stub (symbolic non-negative ascending eigenvalues, symbolic eigenvectors); sequential / non-sequential; default and permuted mode orders; automatic and explicit ranks")
-def hosvd_structure(E, shape, sequential, dimorder, ranks):
+    bounds="tol symbolic in (0,1); data symbolic with the eigen-solver as a contract stub (non-sequential) or concrete data of norm <1 / =1 / >1 answered by the real eigen-solver (both strategies); default and permuted mode orders; automatic and explicit ranks")
+def hosvd_structure(E, shape, sequential, dimorder, ranks, data):
     """hosvd: Gram matrix per mode, rank rule (tail <= tol^2 ||X||^2 / N and minimal), leading columns in order, core relation"""
     N = len(shape)
-    X = O.dense(E, "x", shape)
+    if data == "sym":
+        X = O.dense(E, "x", shape)
+    else:
+        X = ttb.tensor(E.const(DATA[data](shape)))
     c = O.cells(X.data)
     normsq = _sumsq(c)
     E.assume(normsq != 0)
@@ -40,7 +61,7 @@ def hosvd_structure(E, shape, sequential, dimorder, ranks):
     # sequential truncation: the stub's eigenvectors are not tied to its eigenvalues, so the shrunk tensor may have
     # less energy than the threshold -- impossible for true eigenpairs when tol^2 < N/2 (the energy kept in one
     # mode is >= ||X||^2 (1 - tol^2/N)); that lemma is assumed here as part of the stub's contract
-    with H.eig(E, psd=True, trace_gt=(thresh if sequential and ranks is None else None)) as st:
+    with H.eig(E, psd=True, trace_gt=(thresh if sequential and ranks is None else None), exact2=False) as st:
         T = ttb.hosvd(X, tol, verbosity=0, dimorder=dimorder, sequential=sequential, ranks=(list(ranks) if ranks is not None else None))
     order = list(range(N)) if dimorder is None else list(dimorder)
     E.true(len(st.calls) == N, "one eigen-decomposition per mode", f"{len(st.calls)}")
